@@ -49,6 +49,17 @@ func roundTrip[T any, V any](c Codec[T], v V) string {
 	return canon(out)
 }
 
+// roundTripVal: the value itself after one encode/decode
+func roundTripVal[T any, V any](c Codec[T], v V) V {
+	b, err := c.Marshal(v)
+	var out V
+	if err != nil {
+		return out
+	}
+	c.Unmarshal(b, &out)
+	return out
+}
+
 type pair[T any] struct {
 	w    *sysWorld
 	a, b *SysNode[T]
@@ -209,7 +220,7 @@ func FamValues[T any](c Codec[T], stream bool, chunk int, seed int64, n int) Sys
 		}
 		tag := 200 + i
 		cl := SysCall{Tag: tag, From: from}
-		switch r.Intn(12) {
+		switch r.Intn(17) {
 		case 0:
 			x := []int64{0, 1, -1, 1 << 40, -(1 << 40), 9007199254740991, int64(r.Intn(100000))}[r.Intn(7)]
 			cl.Method, cl.Arg, cl.Oracle = "EchoInt", canon(x), roundTrip(c, x)
@@ -275,6 +286,37 @@ func FamValues[T any](c Codec[T], stream bool, chunk int, seed int64, n int) Sys
 			msg := "partially processed."
 			cl.Method, cl.Arg, cl.Oracle, cl.Extra = "PartialStruct", canon(s), roundTrip(c, s), msg
 			v, err := rem.PartialStruct(ctx, tag, s, msg)
+			cl.Ret, cl.Err = canon(v), errText(err)
+		case 11: // a result type that itself has an Error method is still a value
+			st := Status{Code: 1 + r.Intn(9), Msg: "status " + GenString(r)}
+			cl.Method, cl.Arg, cl.Oracle = "EchoStatus", canon(st), roundTrip(c, st)
+			v, err := rem.EchoStatus(ctx, tag, st)
+			cl.Ret, cl.Err = canon(v), errText(err)
+		case 12:
+			var sp *Status
+			if r.Intn(3) != 0 {
+				sp = &Status{Code: 7, Msg: "seven"}
+			}
+			cl.Method, cl.Arg, cl.Oracle = "EchoStatusPtr", canon(sp), roundTrip(c, sp)
+			v, err := rem.EchoStatusPtr(ctx, tag, sp)
+			cl.Ret, cl.Err = canon(v), errText(err)
+		case 13: // handlers that return a value and no error
+			nm := GenString(r)
+			cl.Method, cl.Arg, cl.Oracle, cl.Extra = "Greet", canon(nm), roundTrip(c, nm), roundTrip(c, "hello "+roundTripVal(c, nm))
+			v, err := rem.Greet(ctx, tag, nm)
+			cl.Ret, cl.Err = canon(v), errText(err)
+		case 14:
+			cl.Method, cl.Arg, cl.Oracle, cl.Extra = "Tags", "null", "null", roundTrip(c, map[string]int{"a": 1, "b": tag})
+			v, err := rem.Tags(ctx, tag)
+			cl.Ret, cl.Err = canon(v), errText(err)
+		case 15:
+			var ptr *Rec
+			if r.Intn(3) != 0 {
+				x := GenRec(r, 1)
+				ptr = &x
+			}
+			cl.Method, cl.Arg, cl.Oracle, cl.Extra = "Mirror", canon(ptr), roundTrip(c, ptr), roundTrip(c, ptr)
+			v, err := rem.Mirror(ctx, tag, ptr)
 			cl.Ret, cl.Err = canon(v), errText(err)
 		case 10: // named non-struct types
 			cn, nm := Count([]uint64{0, 7, 1 << 40}[r.Intn(3)]), Name(GenString(r))
@@ -342,7 +384,16 @@ func FamErrors[T any](c Codec[T], stream bool, chunk int, seed int64, n int) Sys
 		tag := 300 + i
 		msg := msgs[r.Intn(len(msgs))]
 		cl := SysCall{Tag: tag, From: from, Arg: canon(msg)}
-		switch r.Intn(7) {
+		switch r.Intn(8) {
+		case 7: // an error value whose fields no serializer can encode: only its message travels
+			cl.Method = "FailFancy"
+			cctx, ccancel := context.WithTimeout(ctx, 3*time.Second)
+			err := rem.FailFancy(cctx, tag, msg)
+			ccancel()
+			cl.Ret, cl.Err = "null", errText(err)
+			if err == nil {
+				cl.Err = "<nil>"
+			}
 		case 4: // the handler declares a concrete error type as its only result
 			cl.Method = "FailConcrete"
 			err := rem.FailConcrete(ctx, tag, msg)
@@ -514,6 +565,87 @@ func FamClosures[T any](c Codec[T], stream bool, chunk int, seed int64, n int) S
 		mu.Lock()
 		rec.Calls = append(rec.Calls, SysCall{Tag: 488, From: "B", Method: "Two", Ret: v, Err: errText(err), Done: true, Extra: strings.Join(runs, "|")})
 		mu.Unlock()
+		if n := p.b.Reg.VerifClosureCount(); n != 0 {
+			rec.Notes = append(rec.Notes, fmt.Sprintf("CLOSURES-REMAIN tag=488 count=%d after a call with two function arguments returned", n))
+		}
+	}
+	// a closure that takes nothing but the context
+	{
+		pctx, pcancel := context.WithTimeout(ctx, 5*time.Second)
+		v, err := p.ra.Call0(pctx, 485, func(ctx context.Context) (int, error) { return 4850, nil })
+		pcancel()
+		rec.Calls = append(rec.Calls, SysCall{Tag: 485, From: "A", Method: "Call0", Ret: canon(v), Err: errText(err), Done: true})
+	}
+	// two calls in flight at once that pass closures made by the SAME function literal: each callee must reach
+	// the closure of its own call
+	{
+		var wg sync.WaitGroup
+		res := make([]SysCall, 2)
+		for k := 0; k < 2; k++ {
+			wg.Add(1)
+			go func() {
+				defer wg.Done()
+				pctx, pcancel := context.WithTimeout(ctx, 6*time.Second)
+				defer pcancel()
+				v, err := p.ra.Delayed(pctx, 4830+k, func(ctx context.Context, x int) (int, error) { return 1000*(k+1) + x, nil })
+				res[k] = SysCall{Tag: 4830 + k, From: "A", Method: "SameLiteral", Ret: canon(v), Err: errText(err), Done: true}
+			}()
+		}
+		waitUntil(func() bool { return hasInv(p.w, "Delayed", 4830) && hasInv(p.w, "Delayed", 4831) }, 3*time.Second)
+		close(p.w.gate(4831))
+		close(p.w.gate(4830))
+		if !waitAll(&wg, 8*time.Second) {
+			rec.Hang = true
+		}
+		rec.Calls = append(rec.Calls, res...)
+	}
+	// the callee keeps the callable and is still inside an invocation of it when the passing call is cancelled;
+	// once that invocation has finished, a later invocation must be refused
+	{
+		cctx, ccancel := context.WithCancel(ctx)
+		started, release := make(chan struct{}), make(chan struct{})
+		runs := 0
+		var mu sync.Mutex
+		done := make(chan SysCall, 1)
+		go func() {
+			v, err := p.ra.KeepAndCall(cctx, 482, func(ctx context.Context, x int) (int, error) {
+				mu.Lock()
+				runs++
+				first := runs == 1
+				mu.Unlock()
+				if first {
+					close(started)
+					<-release
+				}
+				return x, nil
+			})
+			done <- SysCall{Tag: 482, From: "A", Method: "KeepAndCallCancelled", Ret: canon(v), Err: errText(err), Done: true}
+		}()
+		select {
+		case <-started:
+		case <-time.After(3 * time.Second):
+			rec.Notes = append(rec.Notes, "closure of KeepAndCall never started")
+		}
+		ccancel()
+		select {
+		case cl := <-done:
+			rec.Calls = append(rec.Calls, cl)
+		case <-time.After(3 * time.Second):
+			rec.Calls = append(rec.Calls, SysCall{Tag: 482, From: "A", Method: "KeepAndCallCancelled", Err: "DID-NOT-RETURN"})
+		}
+		close(release)
+		waitUntil(func() bool { return hasRet(p.w, "KeepAndCall", 482) }, 3*time.Second)
+		p.w.mu.Lock()
+		kept := p.w.kept[482]
+		p.w.mu.Unlock()
+		if kept != nil {
+			lctx, lcancel := context.WithTimeout(ctx, 3*time.Second)
+			v, err := kept(lctx, 9)
+			lcancel()
+			mu.Lock()
+			rec.Calls = append(rec.Calls, SysCall{Tag: 481, From: "B", Method: "LateInvokeAfterInFlight", Ret: canon(v), Err: errText(err), Done: true, Extra: fmt.Sprint(runs)})
+			mu.Unlock()
+		}
 	}
 	// a function argument that cannot be a closure (no error result): the call fails, nothing stays registered
 	{
